@@ -4,6 +4,8 @@
   (with / without the re-entrancy guard, `guard`).  Proof machinery: Lemmas/Cascade*.lean.
 -/
 import PonyVerif.Lemmas.CascadeDel
+import PonyVerif.Lemmas.CascadeFuel
+import PonyVerif.Lemmas.CascadeUndo
 namespace PonyVerif.Props.C15
 open PonyVerif.Model.Cascade
 
@@ -135,6 +137,77 @@ theorem C15_refuse_no_change (sch : Schema) (ct : ClassTable) (guard : Bool) (s 
     · intro hne; exact absurd rfl hne
     · intro _; rfl
   · intro _; rfl
+
+/-- The undo list of `_delete_` is exact.  `deleteTopT` is the top-level delete as the code does it: every mutation pushes its
+    inverse (`Attribute.__set__`, `reverse_remove`, the collection rewrite of `Set.__set__`, the status change), and a failure at
+    any depth replays the list newest first on the store as it is at that point.  It returns exactly what `deleteTop` returns:
+    the same store and outcome on success, and on failure the store the call started from — for every schema, class table,
+    store, object and both variants of `_delete_`. -/
+theorem C15_undo_exact (sch : Schema) (ct : ClassTable) (guard : Bool) (s : Store) (a : ObjId) :
+    deleteTopT sch ct guard s a = deleteTop sch ct guard s a := by
+  unfold deleteTopT deleteTop
+  split
+  · have he := deleteT_erase sch ct guard (fuelOf sch s) [] a ⟨s, []⟩
+    have hu := deleteT_undo sch ct guard (fuelOf sch s) [] a ⟨s, []⟩
+    cases hr : deleteT sch ct guard (fuelOf sch s) [] a ⟨s, []⟩ with
+    | ok t =>
+      rw [hr] at he
+      simp only [RT.erase] at he
+      rw [← he]
+    | error et =>
+      obtain ⟨e, t⟩ := et
+      rw [hr] at he hu
+      simp only [RT.erase] at he
+      rw [← he]
+      obtain ⟨tr, htr, hund⟩ := hu
+      simp only [List.append_nil] at htr
+      simp only
+      rw [htr, hund]
+  · rfl
+
+/-- the failing case is not vacuous: a refused delete that has already unlinked and cascade-deleted something before it fails -/
+example : ∃ (sch : Schema) (ct : ClassTable) (s : Store) (t : T) (e : Err),
+    deleteT sch ct false 9 [] 0 ⟨s, []⟩ = .error (e, t) ∧ t.trail.length = 2 ∧ (t.store.alive 1 = false) := by
+  -- entity 0: kids (cascade, declared first) and docs (no cascade, Required reverse); object 1 a kid, object 2 a doc
+  refine ⟨[⟨⟨0, true, false, true, false⟩, ⟨1, false, false, false, true⟩, false⟩,
+           ⟨⟨0, true, false, false, false⟩, ⟨2, false, true, false, true⟩, false⟩],
+          (fun e => if e = 0 then [⟨0, false⟩, ⟨1, false⟩] else if e = 1 then [⟨0, true⟩] else [⟨1, true⟩]),
+          ⟨3, id, fun o => decide (o < 3),
+           fun o a => if o = 1 ∧ a = ⟨0, true⟩ then some 0 else if o = 2 ∧ a = ⟨1, true⟩ then some 0 else none,
+           fun o a x => decide ((o = 0 ∧ a = ⟨0, false⟩ ∧ x = 1) ∨ (o = 0 ∧ a = ⟨1, false⟩ ∧ x = 2))⟩, ?_⟩
+  exact ⟨_, _, rfl, rfl, rfl⟩
+
+/-- a successful `_delete_` only removes — for EVERY store (no invariant): no object comes alive, no link is added -/
+theorem C15_only_removes (sch : Schema) (ct : ClassTable) (guard : Bool) (fuel : Nat) (P : List ObjId) (a : ObjId) (s s' : Store)
+    (h : delete sch ct guard fuel P a s = .ok s') :
+    (∀ p, s'.alive p = true → s.alive p = true) ∧ (∀ p b q, hasB sch s' p b q = true → hasB sch s p b q = true) :=
+  ⟨(delete_sub fuel P a s s' h).alive, (delete_sub fuel P a s s' h).has⟩
+
+/-- Termination / fuel bound.  If the cascading attributes are ranked — some measure strictly decreases along every cascade edge,
+    which is possible exactly when the cascade graph has no cycle — then fuel above the rank of the object suffices: the model's
+    RecursionError does not fire (every store, both variants).  With ranks bounded by the number of objects (any acyclic graph on
+    `n` nodes has such a ranking) the fuel `deleteTop` passes is enough, so a model RecursionError always means a cascade cycle. -/
+theorem C15_terminates (sch : Schema) (ct : ClassTable) (guard : Bool) (s : Store) (a : ObjId) (rank : ObjId → Nat)
+    (hr : Ranked sch s rank) (hb : ∀ x, rank x ≤ s.n) :
+    (∀ fuel P, rank a < fuel → delete sch ct guard fuel P a s ≠ .error .recursionError) ∧
+    (deleteTop sch ct guard s a).2 ≠ some .recursionError := by
+  refine ⟨fun fuel P hf => delete_norec fuel P a s hr hf, ?_⟩
+  unfold deleteTop
+  split
+  · have hfuel : rank a < fuelOf sch s := by
+      have h1 := hb a
+      have h2 : s.n + 1 ≤ (2 * sch.length + 2) * (s.n + 1) := Nat.le_mul_of_pos_left _ (by omega)
+      unfold fuelOf; omega
+    have := delete_norec (ct := ct) (guard := guard) (fuelOf sch s) [] a s hr hfuel
+    cases hd : delete sch ct guard (fuelOf sch s) [] a s with
+    | ok s' => simp
+    | error e =>
+      simp only
+      intro hc
+      have he : e = .recursionError := by simpa using hc
+      rw [hd, he] at this
+      exact this rfl
+  · simp
 
 /-! ## C15_no_dangling -/
 
@@ -452,6 +525,13 @@ theorem C15_on_delete_matches_m2m (guard : Bool) (o : ObjId) (ho : o = 0 ∨ o =
     obsDb (viaBulk sch s o) = some (decide (o = 1), decide (o = 0), none, false) ∧
     obsDb (some (commit sch s)) = some (true, true, none, true) := by
   rcases ho with rfl | rfl <;> cases guard <;> exact ⟨rfl, rfl, rfl⟩
+
+/-- hypotheses of `C15_terminates` met non-trivially: on the parent/child graph the object id is a ranking bounded by `n` -/
+example : Ranked (sch2 (childSide true false) (parentSide true true)) (store2 false true) (fun x => x) := by
+  intro p q ⟨b, hb, hh⟩
+  rcases (hasB_store2 _ _ false true rfl rfl p b q).mp hh with ⟨rfl, rfl, rfl⟩ | ⟨rfl, rfl, rfl⟩
+  · simp [Schema.isCascade, Schema.side, sch2, aC, childSide] at hb
+  · simp
 
 /-! ## Inheritance: the class table is that of the object's REAL class -/
 
